@@ -3,8 +3,10 @@ import itertools
 
 import torch
 
+from . import wq
+
 EVIDENCE = dict(
-    bounds="bits in {2,4}; every byte value symbolic (BV8); leading dimension 1..40 (quick) / 1..130 (thorough) x trailing shapes of rank 0..3 with dims <= 3, contiguous, transposed and step-2 sliced; kernel agreement on arbitrary bytes for the python kernel, the C++ kernel compiled from /repo's unpack.cpp, and the routed op with extensions enabled / disabled / raising; call histories on every route: two tensors unpacked in turn, a returned result overwritten in place, the payload rewritten through .data, then unpacked again",
+    bounds="bits in {2,4}; every byte value symbolic (BV8); leading dimension 1..40 (quick) / 1..130 (thorough) x trailing shapes of rank 0..3 with dims <= 3, contiguous, transposed and step-2 sliced; plus, for every integer literal L in 24..4096 that the current source of qbits/packed.py, library/python/unpack.py, library/ext/cpp/unpack.cpp, library/ext/cpp/__init__.py, library/ops.py uses as a possible size threshold, leading dimensions L-1, L, L+1, 2L-1, 2L+1 and kernel inputs of L+1 and 2L+1 bytes (none on the pinned tree); kernel agreement on arbitrary bytes for the python kernel, the C++ kernel compiled from /repo's unpack.cpp, and the routed op with extensions enabled / disabled / raising; call histories on every route: two tensors unpacked in turn, a returned result overwritten in place, the payload rewritten through .data, then unpacked again",
     outside="CUDA (unpack.cu) and MPS (unpack.mm) kernels; the mps-only branches of lshift/rshift; shapes beyond the bounds",
     assumptions=[
         "z3 bit-vector theory; transfer functions of the ATen ops listed under aten_ops_interpreted (validated bit-for-bit on every op under the seed)",
@@ -15,6 +17,8 @@ CASE_DEADLINE = dict(quick=240.0, thorough=900.0)
 
 TRAILING = [(), (1,), (3,), (2, 3), (3, 1), (2, 1, 3), (1, 2, 2)]
 OPS = ["add1", "eq3", "reshape", "index0", "sum", "to_uint8", "mul2", "flip", "t_contig", "clone", "slice0", "slice_last", "narrow0", "narrow_neg_first", "narrow_neg_last", "select_neg", "index_neg", "step_slice", "unsqueeze", "expand", "cat_self", "ne0", "gather_rows"]
+
+THRESHOLD_FILES = ["optimum/quanto/tensor/qbits/packed.py", "optimum/quanto/library/python/unpack.py", "optimum/quanto/library/ext/cpp/unpack.cpp", "optimum/quanto/library/ext/cpp/__init__.py", "optimum/quanto/library/ops.py"]
 
 
 def cases(tier, seed):
@@ -29,6 +33,12 @@ def cases(tier, seed):
         out.append(dict(kind="kernels", bits=bits, shapes=[list(s) for s in shapes]))
         out.append(dict(kind="history", bits=bits, shapes=[[3], [4, 2], [2, 2, 3]]))
         out.append(dict(kind="ops", bits=bits, shapes=[[5, 3], [4], [3, 2, 2]] if tier == "quick" else [[5, 3], [4], [3, 2, 2], [7, 2], [9], [8, 1, 2]]))
+    # sizes derived from the integer thresholds of the current source of the packer and the unpack kernels (none on the pinned tree)
+    for L, where in sorted(wq.size_thresholds(THRESHOLD_FILES, hi=4096).items()):
+        extra = sorted({r for r in (L - 1, L, L + 1, 2 * L - 1, 2 * L + 1) if r > rows[-1]})
+        for bits in (2, 4):
+            out.append(dict(kind="roundtrip", bits=bits, rows=extra, trailing=[[], [1], [3]], threshold=f"{L} at {where[0]}"))
+            out.append(dict(kind="kernels", bits=bits, shapes=[[r] for r in (L + 1, 2 * L + 1)] + [[L // 2 + 1, 2]], threshold=f"{L} at {where[0]}"))
     return out
 
 
